@@ -8,6 +8,7 @@ package main
 //	   h = handleFindNodes directly, t = through handleTalkRequest (t@<ip> / t@-: the sender's record advertises another address / none), s = handleFindNodes on a table that is still seeding (Table.isInitDone() false)
 //	   the table (after the call) is bucket/bucket/... with entries tag:id:flags:port:size:valid:live, "-" for an empty bucket
 //	pn <senderenr> <dists|N> <resphex> <genflags> ; <senderrec> <E | recs tag:id:flags:port:size:valid:gen> | ok <tags> / err / panic
+//	pq ... same fields as pn, but the response is served by a scripted responder to the asking side's real findNodes (unobserved on a timeout)
 //	dg <reqidlen> <resplen> | <sizes of the datagrams the asker read from the responder during the request> / unobserved
 //	lfn <dists> ; <responder-self-rec> <table of the responder> | ok <tags the asker's findNodes returned> / err
 import (
@@ -121,7 +122,7 @@ func c11execFn(c *Ctx, keyhex, sip, asker, via string, dists []uint, ins []c11in
 	self := inst.Self()
 	sb := hEnrBytes(self)
 	selfs := hRecStr(t.tag(sb), self, len(sb), true)
-	tab := hTableStr(inst, t)
+	tab := hTableStrU(inst, t, hUncheckedEndpoints(ins))
 	obs := ""
 	switch {
 	case panicked:
@@ -160,8 +161,39 @@ func c11execFn(c *Ctx, keyhex, sip, asker, via string, dists []uint, ins []c11in
 }
 
 // c11execPn feeds a NODES response to processNodes of the asking instance.
+// scripted responder for the real asking path: instance B's talk handler answers every request with c11scriptResp
+var c11scriptA, c11scriptB *portalwire.VerifHInstance
+var c11scriptResp []byte
+
+func c11scriptPair(r *Rng) {
+	if c11scriptA != nil {
+		return
+	}
+	c11scriptA = hInstance(hKeyHex(hKey(r)), "-", "history")
+	c11scriptB = hInstance(hKeyHex(hKey(r)), "-", "history")
+	c11scriptB.P.DiscV5.RegisterTalkHandler(string(portalwire.History), func(*enode.Node, *net.UDPAddr, []byte) []byte {
+		return c11scriptResp
+	})
+}
+
+// c11execPq: the same judgement as c11execPn, but through the real findNodes of the asking side against the scripted responder.
+func c11execPq(c *Ctx, r *Rng, dists []uint, resp []byte, gen string) {
+	c11scriptPair(r)
+	c11scriptResp = resp
+	c11execPnVia(c, "pq", "-", hEnrBytes(c11scriptB.Self()), dists, resp, gen)
+}
+
 func c11execPn(c *Ctx, keyhex string, senderEnr []byte, dists []uint, resp []byte, gen string) {
-	inst := hInstance(keyhex, "-", "history")
+	c11execPnVia(c, "pn", keyhex, senderEnr, dists, resp, gen)
+}
+
+func c11execPnVia(c *Ctx, kind string, keyhex string, senderEnr []byte, dists []uint, resp []byte, gen string) {
+	var inst *portalwire.VerifHInstance
+	if kind == "pq" {
+		inst = c11scriptA
+	} else {
+		inst = hInstance(keyhex, "-", "history")
+	}
 	sender, err := hNodeFromBytes(senderEnr)
 	if err != nil {
 		panic(err)
@@ -198,11 +230,20 @@ func c11execPn(c *Ctx, keyhex string, senderEnr []byte, dists []uint, resp []byt
 	}
 	var out []*enode.Node
 	var perr error
-	panicked, pmsg := guard(func() { out, perr = inst.ProcessNodes(sender, resp, dists) })
+	panicked, pmsg := guard(func() {
+		if kind == "pq" {
+			out, perr = inst.FindNodes(c11scriptB.Self(), dists)
+		} else {
+			out, perr = inst.ProcessNodes(sender, resp, dists)
+		}
+	})
 	obs := ""
 	switch {
 	case panicked:
 		obs = "panic " + pmsg
+	case kind == "pq" && hTimeoutErr(perr):
+		obs = "unobserved " + strings.ReplaceAll(perr.Error(), " ", "_")
+		c.Count("pq_unobserved")
 	case perr != nil:
 		obs = "err"
 	default:
@@ -220,7 +261,8 @@ func c11execPn(c *Ctx, keyhex string, senderEnr []byte, dists []uint, resp []byt
 	if gen == "" {
 		gen = "-"
 	}
-	c.Emit("pn %s %s %s %s %s ; %s %s | %s", keyhex, hx(senderEnr), c11dists(dists), hx(resp), gen, senders, dec, obs)
+	c.Count(kind + "_cases")
+	c.Emit("%s %s %s %s %s %s ; %s %s | %s", kind, keyhex, hx(senderEnr), c11dists(dists), hx(resp), gen, senders, dec, obs)
 }
 
 func c11replay(c *Ctx, lines []string) {
@@ -232,6 +274,12 @@ func c11replay(c *Ctx, lines []string) {
 		switch f[0] {
 		case "fn":
 			c11execFn(c, f[1], f[2], f[3], f[4], c11parseDists(f[5]), c11parseIns(f[6]))
+		case "pq":
+			g := f[5]
+			if g == "-" {
+				g = ""
+			}
+			c11execPq(c, NewRng(c.Seed), c11parseDists(f[3]), unhx(f[4]), g)
 		case "pn":
 			g := f[5]
 			if g == "-" {
@@ -397,6 +445,27 @@ func (g *c11gen) fnCase() {
 	ki := r.Intn(len(g.keys))
 	inst := hInstance(g.keys[ki], g.sips[ki], "history")
 	ins := g.fill(inst.Self().ID())
+	// record updates of entries already inserted: a newer record (higher sequence number) with the same address and a new port,
+	// or a new address: the entry's new endpoint has not been liveness-checked and must not be offered until it is
+	if len(ins) > 0 && r.Intn(3) == 0 {
+		for k, cnt := 0, 1+r.Intn(3); k < cnt; k++ {
+			x := ins[r.Intn(len(ins))]
+			old, err := hNodeFromBytes(x.enr)
+			if err != nil || old.Record().IdentityScheme() != "null" {
+				continue
+			}
+			ip, port := old.IP(), old.UDP()
+			if r.Intn(3) == 0 {
+				ip = hIP(r, r.Pick2([]string{"loop", "lan10", "pub"}))
+			} else {
+				port = port + 1 + r.Intn(100)
+			}
+			if nn := hRecord(nil, old.ID(), ip, port, old.Seq()+1, 0); nn != nil {
+				ins = append(ins, c11ins{hEnrBytes(nn), r.Bool()})
+				g.c.Count("fn_entry_record_updated_endpoint_changed")
+			}
+		}
+	}
 	ds := g.dists()
 	via := "h"
 	if len(ds) <= 256 && r.Intn(3) == 0 {
@@ -417,6 +486,50 @@ func (g *c11gen) fnCase() {
 		via = "h"
 	}
 	c11execFn(g.c, g.keys[ki], g.sips[ki], asker, via, ds, ins)
+}
+
+// pqCase: the asking side's real findNodes against a responder that answers with records no matter what was asked: requested
+// lists that are empty, all invalid, mixed, with duplicates, or proper.
+func (g *c11gen) pqCase() {
+	r := g.r
+	c11scriptPair(r)
+	sender := c11scriptB.Self()
+	var enrs [][]byte
+	gen := ""
+	var actual []uint
+	for i, k := 0, 1+r.Intn(3); i < k; i++ {
+		pk := g.pool[r.Intn(len(g.pool))]
+		n := hRecord(pk.key, pk.id, hIP(r, r.Pick2([]string{"loop", "lan10", "pub", "pub"})), r.Pick([]int{30303, 30303, 9009, 1024}), 1, 0)
+		enrs = append(enrs, hEnrBytes(n))
+		gen += "1"
+		actual = append(actual, uint(enode.LogDist(sender.ID(), n.ID())))
+	}
+	var ds []uint
+	switch k := r.Intn(8); k {
+	case 0:
+		ds = []uint{}
+	case 1:
+		ds = []uint{257}
+	case 2:
+		ds = []uint{300, 65535}
+	case 3: // mixed: invalid ones and one actual distance
+		ds = []uint{999, actual[0], 257}
+	case 4: // duplicates
+		ds = []uint{actual[0], actual[0], actual[len(actual)-1]}
+	case 5: // valid distances, none of them the actual ones
+		ds = []uint{uint(1 + r.Intn(200)), 0}
+	case 6:
+		ds = append([]uint{}, actual...)
+	default:
+		ds = []uint{256, 255, 254}
+	}
+	g.c.Count(fmt.Sprintf("pq_dists_kind_%d", r.Intn(1)+len(ds)))
+	m := &portalwire.Nodes{Total: 1, Enrs: enrs}
+	body, err := m.MarshalSSZ()
+	if err != nil {
+		return
+	}
+	c11execPq(g.c, r, ds, append([]byte{portalwire.NODES}, body...), gen)
 }
 
 // pnCase builds a NODES response from a signing pool.
@@ -647,6 +760,9 @@ func runC11(c *Ctx) {
 	}
 	for i := 0; i < npn; i++ {
 		g.pnCase()
+	}
+	for i := 0; i < npn/20; i++ {
+		g.pqCase()
 	}
 	c11live(c, r, rounds)
 }
